@@ -351,6 +351,9 @@ def execute_plan(check, plan: dict, known=None) -> dict:
     _CURRENT = ctx
     t0 = _real_time.perf_counter()
     _ambient_reset(plan.get("seed", 0))
+    from . import seams
+
+    seams.reset_serials()
     try:
         check.execute(plan, ctx)
     finally:
